@@ -59,7 +59,9 @@ fn normalise_msg(m: &str) -> String {
     }
     // keep INV ids readable: "INV-#" is fine
     if out.len() > 120 {
-        out.truncate(120);
+        // never cut inside a multi-byte character (a panic inside the panic hook aborts the whole process)
+        let cut = (0..=120).rev().find(|i| out.is_char_boundary(*i)).unwrap_or(0);
+        out.truncate(cut);
     }
     out
 }
